@@ -1186,6 +1186,20 @@ class Interp:
         return o
 
     def call_func(self, f: Func, args, kwargs, node, self_obj=None):
+        # a function proved to be an exact label enumerator is read as the anchor every domain models
+        ve = self.prog.__dict__.get("_verified_enum")
+        if ve is None and self_obj is None and len(args) + len(kwargs) == 1:
+            self.prog.__dict__["_verified_enum"] = {}
+            try:
+                from .rules.labelenum import verified_enumerators
+
+                self.prog.__dict__["_verified_enum"] = verified_enumerators(self.prog)
+            except Exception:
+                pass
+            ve = self.prog.__dict__["_verified_enum"]
+        if ve and f.qual in ve and self_obj is None and type(self).__name__ != "EnumInterp":
+            anchor = self.prog.func("utils.numpy_utils:_unique_without_zeros" if ve[f.qual] == "set" else "utils.numpy_utils:_count_unique_without_zeros")
+            return self.call_func(anchor, list(args) + list(kwargs.values()), {}, node)
         if self.depth >= self.max_depth or not self.should_inline(f):
             self.root.last_receiver = self_obj
             return self.external_call(f.qual, args, kwargs, node)
